@@ -204,8 +204,10 @@ func strHandle(in []byte) []byte {
 		r := rand.New(rand.NewSource(c.Seed*1000003 + int64(c.ID)*131 + int64(k)))
 		lead := strings.Repeat("a", padLens[r.Intn(len(padLens))])
 		trail := strings.Repeat("b", padLens[r.Intn(len(padLens))])
+		strReps = []int{1, 1, 1, 2, 5, 17, 40, 130, 600}[r.Intn(9)]
 		if k == 0 {
 			lead, trail = "", ""
+			strReps = 1
 		}
 		switch c.Fam {
 		case "quote":
@@ -221,13 +223,20 @@ func strHandle(in []byte) []byte {
 	return out
 }
 
+var strReps = 1
+
 func strQuoteCase(c *strCase, res *strRes, r *rand.Rand, lead, trail string) {
 	var sb strings.Builder
 	sb.WriteString(lead)
 	hasBad := false
-	for _, cl := range c.S {
-		sb.WriteString(contentBytes(cl, r))
-		hasBad = hasBad || cl == "bad"
+	// scale: the content repeated, so that strings dense in expanding characters make the output buffer fill up and grow
+	// several times in the middle of the string (the first concretisation keeps the bare content)
+	reps := strReps
+	for i := 0; i < reps; i++ {
+		for _, cl := range c.S {
+			sb.WriteString(contentBytes(cl, r))
+			hasBad = hasBad || cl == "bad"
+		}
 	}
 	sb.WriteString(trail)
 	s := strOf(placeInput([]byte(sb.String()), len(c.S))) // placed per VERIF_PLACE (heap / guard page / adversarial continuation)
